@@ -7,9 +7,10 @@ offsets around each hop's hand-over instant (and exactly on it in the boundary
 class)."""
 from vlib.framework import BaseCheck, CaseResult
 
+EPS = 1e-6
 HOPS = [('thrift', 'open'), ('mux', 'open'), ('thrift', 'pool-connect'), ('thrift', 'pool-queue'),
         ('mux', 'send-queue'), ('thrift', 'wire'), ('mux', 'wire'), ('thrift', 'mixed'), ('mux', 'mixed'),
-        ('thrift', 'blocked-write')]
+        ('thrift', 'blocked-write'), ('mux', 'transport-open')]
 
 
 class C12(BaseCheck):
@@ -22,7 +23,7 @@ class C12(BaseCheck):
           'late), mixed (random combination). Every byte range the server decoded is mapped back to the '
           'client send() events that carried it; for a call handed TimeoutError at log position s no send '
           'carrying its bytes may have position > s; for mux a request fully written before s and '
-          'unanswered on a still-open connection must be followed by a Tdiscarded naming its tag. '
+          'unanswered on a still-open connection must be followed by a Tdiscarded naming its tag. An eleventh hop sits inside the multiplexed transport: requests handed to timeout sink -> serializer -> transport while the transport itself is still connecting; one that expires in that wait must never reach the peer. A third of the mux cases start their tag pool at 254..2^23. '
           'non-trivial = at least one call timed out; distinct by (stack, hop, offset class, #timeouts, '
           'discards expected)')
   ANCHORS = ('scales.sink:ClientTimeoutSink._TimeoutHelper',
@@ -31,7 +32,7 @@ class C12(BaseCheck):
              'scales.thriftmux.sink:SocketTransportSink._OnTimeout',
              'scales.pool.watermark:WatermarkPoolSink._ProcessQueue')
   REQUIRED_ANCHORS = ANCHORS
-  REQUIRED_CLASSES = tuple('%s/%s' % h for h in HOPS) + ('boundary', 'discard-expected', 'expired-not-sent', 'large-tags')
+  REQUIRED_CLASSES = tuple('%s/%s' % h for h in HOPS) + ('boundary', 'discard-expected', 'expired-not-sent', 'large-tags', 'expired-in-open-wait')
   ASSUMPTIONS = ('bytes are attributed to calls through the frames the server decodes (cid in the argument) '
                  'plus a scan of undecoded trailing bytes for the call id',)
   QUICK_CASES = 1440
@@ -63,12 +64,103 @@ class C12(BaseCheck):
       out.classes = sorted(set(out.classes) | {'large-tags'})
     return out
 
+  def _transport_open(self, env, rng, idx, tier):
+    """The hop inside the multiplexed transport: requests handed to timeout sink -> serializer ->
+    transport while the transport's connection is still being established wait there for the open; one
+    whose deadline passes in that wait has been answered with TimeoutError and must never be
+    written when the connection comes up (however idle the send loop is at that moment)."""
+    import gevent
+    from scales.constants import SinkProperties, MessageProperties
+    from scales.loadbalancer.zookeeper import Endpoint
+    from scales.message import Deadline, MethodCallMessage, TimeoutError as ScalesTimeout
+    from scales.sink import ClientMessageSink, ClientMessageSinkStack, TimeoutSinkProvider
+    from scales.thriftmux.sink import SocketTransportSink as MuxTransport, ThriftMuxMessageSerializerSink
+    from vlib import servers
+    from vlib.stackworld import get_net, _PORT
+    from vlib.gen.verifsvc import ExtService
+    out = CaseResult()
+    classes = {'mux/transport-open'}
+    net = get_net(env)
+    net.reset()
+    _PORT[0] += 1
+    port = _PORT[0]
+    srv = servers.MuxServer(net, 'to', port, servers.DefaultPolicy(0.002))
+    lat = rng.choice([0.2, 0.7])
+    srv.sim.connect_latency = lat
+    tp = MuxTransport.Builder()
+    sp = ThriftMuxMessageSerializerSink.Builder()
+    sp.next_provider = tp
+    tprov = TimeoutSinkProvider()
+    tprov.next_provider = sp
+    top = tprov.CreateSink({SinkProperties.Endpoint: Endpoint('to', port), SinkProperties.Label: 'c12o',
+                            SinkProperties.ServiceInterface: ExtService.Iface})
+    reqs = []
+
+    class Term(ClientMessageSink):
+      def AsyncProcessRequest(self, *a):
+        raise NotImplementedError()
+
+      def AsyncProcessResponse(self, sink_stack, context, stream, msg):
+        context['done'].append((env.now, msg))
+    term = Term()
+
+    def request(T):
+      r = {'id': len(reqs), 't': env.now, 'T': T, 'done': []}
+      reqs.append(r)
+      msg = MethodCallMessage(ExtService.Iface, 'echo', ('t%d-x' % r['id'],), {})
+      msg.properties[MessageProperties.Endpoint] = None
+      msg.properties[Deadline.KEY] = env.now + T
+      st = ClientMessageSinkStack()
+      st.Push(term, r)
+      gevent.spawn(top.AsyncProcessRequest, st, msg, None, {})
+      return r
+    t0 = env.now
+    open_ar = top.Open()
+    # one or several requests; the first one parked is the first one released when the open completes
+    for i in range(rng.choice([1, 1, 2, 4])):
+      request(rng.choice([0.05, lat * 0.5, lat + 0.3, 5.0]))
+      if rng.random() < 0.4:
+        env.advance(rng.random() * lat * 0.3)
+    env.advance(lat * 2 + 1.0)
+    facts = {'stack': 'mux', 'hop': 'transport-open'}
+    seen = {}
+    for q in srv.requests:
+      a0 = q['call'][1][0] if q.get('call') and q['call'][1] else ''
+      if isinstance(a0, str) and a0.startswith('t'):
+        seen[int(a0[1:a0.index('-')])] = q
+    for r in reqs:
+      out.obligations += 1
+      timed_out = [d for d in r['done'] if isinstance(d[1].error, ScalesTimeout)]
+      q = seen.get(r['id'])
+      if timed_out and q is not None and q['vt'] > timed_out[0][0] + EPS:
+        classes.add('expired-in-open-wait')
+        out.violate('sent-after-timeout', 'request %d (T=%.2fs) was handed TimeoutError %.3fs after issue while the '
+                    'transport was still connecting, and its Tdispatch reached the peer %.3fs after that' % (
+                      r['id'], r['T'], timed_out[0][0] - r['t'], q['vt'] - timed_out[0][0]),
+                    dict(facts, first_released=r['id'] == 0))
+      elif timed_out and q is None:
+        classes.add('expired-in-open-wait')
+        classes.add('expired-not-sent')
+      if len(r['done']) > 1:
+        out.violate('double-completion', 'request %d completed %d times' % (r['id'], len(r['done'])), facts)
+    for bf in srv.bad_frames:
+      out.violate('bad-frame', 'server could not decode client bytes: %r' % (bf,), facts)
+    top.Close()
+    env.advance(0.1)
+    out.classes = sorted(classes)
+    out.nontrivial = bool(reqs)
+    out.extra = {'transport_open_requests': len(reqs)}
+    out.sig = ('mux', 'transport-open', lat, len(reqs), sorted(classes))
+    return out
+
   def _run_case(self, env, rng, idx, tier):
     from scales.message import TimeoutError as ScalesTimeout
     from vlib import servers
     from vlib.stackworld import StackWorld
     out = CaseResult()
     kind, hop = HOPS[idx % len(HOPS)]
+    if hop == 'transport-open':
+      return self._transport_open(env, rng, idx, tier)
     classes = {'%s/%s' % (kind, hop)}
     boundary = rng.random() < 0.2
     if boundary:
